@@ -189,6 +189,11 @@ void Gen::fill(char* s, size_t n) {
 			case FieldKind::Enum: {
 				// small values dominate, but sparse enums (e.g. hkConstraintType 0,1,2,6,7,8) need the upper ones as well
 				uint64_t c = rng.below(3) ? rng.below(4) : rng.below(10);
+				if (lastType && *lastType == typeid(BoundVolumeType)) {
+					// sphere, box, capsule, union, half-space equally often (the declared values are 0, 1, 2, 4, 5)
+					static const uint32_t V[] = {0, 1, 2, 4, 5};
+					c = V[rng.below(5)];
+				}
 				if (lastType && *lastType == typeid(hkConstraintType)) {
 					// every defined sub-constraint layout equally often, plus the occasional undefined value
 					static const uint32_t V[] = {0, 1, 2, 6, 7, 8, 3};
